@@ -11,6 +11,6 @@ OneLive(r) == /\ r.mapped # "none"
 VARIABLE l
 Init == l = 0
 Next == /\ l < Len(Trace) /\ l' = l + 1
-        /\ OneLive(Trace[l']) \/ PrintT(<<"@BAD", ToJson([line |-> l', rec |-> Trace[l']])>>)
+        /\ IF OneLive(Trace[l']) THEN TRUE ELSE PrintT(<<"@BAD", ToJson([line |-> l', rec |-> Trace[l']])>>)
 AllConsumed == TLCGet("stats").diameter = Len(Trace) + 1
 ================================================================================
